@@ -107,7 +107,7 @@ PROPS = {
         },
     ),
     "C05": dict(
-        kind="inpkg", pkg="./core/consensus/qbft", overlay=[("c05", "core/consensus/qbft")], stamp=["fakebn"], level="exploration", engine="overlay",
+        kind="inpkg", pkg="./core/consensus/qbft", overlay=[("c05", "core/consensus/qbft")], stamp=["memnet", "fakebn"], level="exploration", engine="overlay",
         technique="property-based mutation testing of wire messages (rapid): valid signed messages of every shape, one generated alteration each, oracle = rejected without touching any receive buffer; positive control on the unaltered message",
         level_text="In-package check of the production receive handler: for generated valid messages (all five types, with justifications and values) every drawn alteration of a signed leaf at either nesting level, "
                    "re-signed rule violations, altered / missing referenced values, count limits, gated / expired duties, nil parts and arbitrary bytes must be rejected with no buffer or instance created, while the unaltered message is accepted exactly once.",
